@@ -130,14 +130,15 @@ class HComp(fm.TimeComponent):
     def tag(self, k):
         if self.value is not None:
             return self.value(self, k)
-        return float(1000 * self.idx + k)
+        # object dtype: lets symbolic interpolation weights flow through in-place numpy ops
+        return np.array([float(1000 * self.idx + k)], dtype=object)
 
     def _initialize(self):
         self.calls.append("initialize")
         for n in self.in_names:
-            self.inputs.add(name=n, time=self.time, grid=fm.NoGrid(), units=self.in_units)
+            self.inputs.add(name=n, time=self.time, grid=fm.NoGrid(1), units=self.in_units)
         for n in self.out_names:
-            self.outputs.add(name=n, time=self.time, grid=fm.NoGrid(), units=self.units)
+            self.outputs.add(name=n, time=self.time, grid=fm.NoGrid(1), units=self.units)
         self.create_connector(pull_data=self.in_names if self.initial_pull else [])
 
     def _connect(self, start_time):
